@@ -69,6 +69,7 @@ func Harness_C12_readMethods() {
 	c, _ := c12Client(srv, false)
 	status := []int{200, 200, 404, 429, 500}[vChoice("status", 5)]
 	garbage := vChoice("garbage-body", 2) == 1
+	truncated := vChoice("body-read-fails", 2) == 1 // the connection drops while the body is read
 	which := vChoice("method", 3)
 	h1, h2 := vBytes("hash1", 32), vBytes("hash2", 32)
 	var sentBody []byte
@@ -83,6 +84,12 @@ func Harness_C12_readMethods() {
 		}
 		if garbage {
 			sentBody = []byte("<html>")
+		}
+		if truncated {
+			sentBody = sentBody[:2]
+			rsp := c12Response(req, status, nil)
+			rsp.Body = &c12BrokenBody{data: sentBody}
+			return rsp, nil
 		}
 		return c12Response(req, status, sentBody), nil
 	}
@@ -105,7 +112,7 @@ func Harness_C12_readMethods() {
 		okShape = r != nil && len(r.Entries) == 1 && bytes.Equal(r.Entries[0].LeafInput, h1) && bytes.Equal(r.Entries[0].ExtraData, h2)
 		vAssert(err == nil || r == nil, "no partial result with an error")
 	}
-	if status == 200 && !garbage {
+	if status == 200 && !garbage && !truncated {
 		vAssert(err == nil && okShape, "well-formed 200 response returned unchanged")
 		vReach("ok")
 		return
@@ -114,3 +121,19 @@ func Harness_C12_readMethods() {
 	vAssert(err != nil && errors.As(err, &re) && re.StatusCode == status && bytes.Equal(re.Body, sentBody), "non-200 or malformed response: error carrying status and body")
 	vReach("refused")
 }
+
+// c12BrokenBody delivers its data and then fails, like a connection dropped mid-body.
+type c12BrokenBody struct {
+	data []byte
+	done bool
+}
+
+func (b *c12BrokenBody) Read(p []byte) (int, error) {
+	if !b.done {
+		b.done = true
+		n := copy(p, b.data)
+		return n, nil
+	}
+	return 0, errors.New("unexpected EOF")
+}
+func (b *c12BrokenBody) Close() error { return nil }
